@@ -5,6 +5,7 @@ import (
 	"encoding/json"
 	"errors"
 	"fmt"
+	"io"
 	"os"
 	"path/filepath"
 	"strings"
@@ -291,8 +292,29 @@ func run(c Case) *pbt.Violation {
 		feedAt = w.prefixEnd
 		segs = splitAt(segs, feedAt)
 	}
+	// digest handshake with a real C2: the answer to lal's S1 is computed once S0 S1 S2 have arrived
+	answerAt := -1
+	if isDigestKind(c.Handshake) && (c.C2 == "" || c.C2 == "valid") && len(w.b) > 1+hsBlock {
+		answerAt = 1 + hsBlock
+		segs = splitAt(segs, answerAt)
+	}
 	off := 0
 	for _, n := range segs {
+		if answerAt >= 0 && off >= answerAt {
+			answerAt = -1
+			s0s1s2 := make([]byte, 1+2*hsBlock)
+			_ = conn.SetReadDeadline(time.Now().Add(lalclient.IdleTimeout))
+			if _, err := io.ReadFull(conn, s0s1s2); err == nil {
+				c2, digestMode := buildC2(s0s1s2[1:])
+				copy(rest, c2) // rest starts at C2 here; a truncated stream takes what fits
+				if digestMode {
+					pbt.Count("c04-digest-handshake-answered-in-digest-mode", 1)
+				} else {
+					pbt.Count("c04-digest-handshake-fell-back-to-simple", 1)
+				}
+			}
+			_ = conn.SetReadDeadline(time.Time{})
+		}
 		if feedAt >= 0 && off >= feedAt {
 			feedAt = -1
 			conn.WaitPeerIdle(lalclient.IdleTimeout)
